@@ -16,6 +16,7 @@ def gate(name, default="y"):
 LIT = {
     "int": dict(fallback="5", cond="11", setv="10", wsetv="3", lo="1", hi="10", users=[NOVAL, "3", "100", "5", "-1"], src=("3", "100"), bnd=("10", "5")),
     "hex": dict(fallback="0x5", cond="0x21", setv="0xff", wsetv="0x3", lo="0x1", hi="0x20", users=[NOVAL, "0x1F", "1f", "0x5", "0xff"], src=("0x3", "0xff"), bnd=("0x20", "0x10")),
+    "float": dict(fallback="5.0", cond="11.5", setv="10.0", wsetv="3.25", lo="1.5", hi="10.0", users=[NOVAL, "3", "100.5", "5", "-0.5"], src=("3.25", "100.5"), bnd=("10.0", "7")),
     "string": dict(fallback="fb", cond="cd", setv="forced", wsetv="weak", users=[NOVAL, "", "fb", "x", 'q"z'], src=("sv", "zz")),
 }
 
@@ -75,7 +76,7 @@ def prec_program(typ, prompt, rev, wrev, dep, defaults, rng_kind):
         elif defaults == 2:
             t["defaults"].append({"v": S("SRC"), "c": Y})
         t["defaults"].append({"v": C(L["fallback"]), "c": Y})
-        if typ != "string" and rng_kind:
+        if typ != "string" and rng_kind:  # int / hex / float
             if rng_kind == 1:
                 t["ranges"].append({"lo": C(L["lo"]), "hi": C(L["hi"]), "c": Y})
             elif rng_kind == 2:
@@ -92,8 +93,8 @@ def prec_program(typ, prompt, rev, wrev, dep, defaults, rng_kind):
 
 def prec_lattice(tier):
     out = []
-    for typ in ("bool", "int", "hex", "string"):
-        rngs = (0, 1, 2, 3) if typ in ("int", "hex") else (0,)
+    for typ in ("bool", "int", "hex", "string", "float"):
+        rngs = (0, 1, 2, 3) if typ in ("int", "hex", "float") else (0,)
         for prompt, rev, wrev, dep, defaults, rk in itertools.product((0, 1, 2), (0, 1, 2), (0, 1, 2), (0, 1), (0, 1, 2), rngs):
             out.append(prec_program(typ, prompt, rev, wrev, dep, defaults, rk))
     out += nest_lattice()
@@ -102,6 +103,31 @@ def prec_lattice(tier):
         # fixed, seed-independent slice
         keep = [p for k, p in enumerate(out) if p["family"] != "F-prec" or k % 9 == 0]
         return keep
+    return out
+
+
+# ------------------------------------------------------------------ C06: numbers in every format
+WIDE_USERS = {
+    "int": [NOVAL, "3", "100", "-1", "007", "010", "2000000000", "1_0", " 7", "+3", "0x5", "abc", ""],
+    "hex": [NOVAL, "0x1F", "0X1f", "1f", "0xff", "-0x1", "zz", " 1f", "+1f", "0x", "010"],
+    "float": [NOVAL, "3", "5.0", "1e3", "-0.5", ".5", "nan", "inf", "1,5", "100.5", "1_0", " 7"],
+}
+
+
+def numeric_lattice(tier):
+    out = []
+    for typ in ("int", "hex", "float"):
+        for prompt, rev, wrev, defaults, rk in itertools.product((1, 2), (0, 1), (0, 1), (0, 1, 2), (0, 1, 2, 3)):
+            it = prec_program(typ, prompt, rev, wrev, 0, defaults, rk)
+            for v in it["vars"]:
+                if v["n"] == "T":
+                    v["cands"] = list(WIDE_USERS[typ])
+                elif v["n"] in ("SRC", "BND"):
+                    v["cands"] = v["cands"][:2]
+            it["family"] = "F-num"
+            out.append(it)
+    if tier == "quick":
+        return [p for k, p in enumerate(out) if k % 4 == 0]
     return out
 
 
